@@ -6,7 +6,7 @@ From Molt Require Import Model.Base Model.ListSyn Model.Float Model.Value Model.
 Local Open Scope N_scope.
 
 Definition c14_prelude : str :=
-  lit "proc pa2 {a b} {}; set nonint abc; proc rce {} {return -code error rmsg}; proc rcei {} {return -code error -errorcode ECODE -errorinfo {given info} imsg}; proc rcec {} {return -code error -errorcode ONLYCODE cmsg}; proc rceo {} {return -errorcode OCODE -code error omsg}".
+  lit "proc pa2 {a b} {}; set nonint abc; proc rce {} {return -code error rmsg}; proc rcei {} {return -code error -errorcode ECODE -errorinfo {given info} imsg}; proc rcec {} {return -code error -errorcode ONLYCODE cmsg}; proc rceo {} {return -errorcode OCODE -code error omsg}; proc rceb {} {return -code error}".
 
 Definition gvar (st : interp) (n : string) : term :=
   match st_scalar st (lit n) with Ok v => TStr (as_str v) | _ => TStr (lit "<unset>") end.
